@@ -245,9 +245,11 @@ def gen_cases(tier, rnd, root):
     n_lay, n_e2e, n_tree, n_mod = (96, 56, 220, 50) if tier == 'quick' else (1500, 500, 5000, 800)
     cases = []
     for k in range(n_lay):
-        variant = {1: 'twins', 4: 'symlink', 6: 'twins', 7: 'module_path_link'}.get(k % 8)
+        variant = {1: 'twins', 2: 'selected_link', 4: 'symlink', 6: 'twins', 7: 'module_path_link'}.get(k % 8)
         c = G.gen_layout_case(rnd, e2e=k < n_e2e, wrapped=(k % 3 == 0), variant=variant, dead_links=True)
         cases.append(c)
+    for _k in range(3 if tier == 'quick' else 40):
+        cases.append(G.gen_identical_helpers_case(rnd))
     for k in range(n_tree):
         cases.append(G.gen_tree_case(rnd, module_mode=False))
     for k in range(n_mod):
@@ -482,6 +484,8 @@ def run(tier, seed):
         samples=samples, in_process_tree_cases=len(trees), end_to_end_runs=e2e_n,
         layout_variants=dict(same_named_members=sum(1 for c in cases if c.get('variant') == 'twins'),
                              symlinked_spellings=sum(1 for c in cases if c.get('variant') == 'symlink'),
+                             selected_package_through_renaming_symlink=sum(1 for c in cases if c.get('variant') == 'selected_link'),
+                             identical_helper_modules_all_selected=sum(1 for c in cases if c.get('variant') == 'identical_helpers'),
                              module_through_symlinked_sys_path=sum(1 for c in cases if c.get('variant') == 'module_path_link'),
                              namespace_directories=sum(1 for c in cases if any(i.get('ns') for i in (c.get('mods') or {}).values())),
                              dangling_symlinks=sum(1 for c in cases if c.get('dead_links'))),
